@@ -115,6 +115,10 @@ def iteration_model(eng, it, fr):
         n = z3.Length(keys)
         fr.ghost['iter_live_dict'] = d
         from . import heapglue
+        prov = heapglue.table_prov(eng, d)
+        if prov is not None:
+            eng.st.ghost['live_iter'] = (prov[0].t.get_id(), prov[1])
+            eng.st.ghost['live_iter_mutated'] = False
 
         def entry(i):
             kt_ = eng.B.dict_key_at(eng, d, i)
@@ -139,6 +143,17 @@ def iteration_model(eng, it, fr):
         def at(i):
             item = V(it.ty[1], it.t[i])
             eng.B.on_elem_read(eng, it.t, i, item)
+            rv = eng.st.ghost.get('reversed_of', {}).get(it.t.get_id())
+            if rv is not None:
+                # reversed(xs)[i] == xs[len-1-i]
+                j = z3.Length(rv.t) - 1 - i
+                eng.assume(z3.Implies(z3.And(i >= 0, i < z3.Length(rv.t)), item.t == rv.t[j]))
+                rs = eng.st.ghost.get('rev_snapshots', {}).get(it.t.get_id())
+                if rs is not None:
+                    d, what, nh = rs[1]
+                    kt_ = eng.B.dict_key_at(eng, d, j)
+                    if what == 'values':
+                        eng.assume(z3.Implies(z3.And(i >= 0, i < z3.Length(rv.t)), item.t == z3.Select(T.dict_map(d), kt_)))
             snap = eng.st.ghost.get('snapshots', {}).get(it.t.get_id())
             if snap is not None:
                 d, what, nh = snap
@@ -279,6 +294,10 @@ def run_loop(eng, s, fr, anchor, spec, idxname, body_guard, bind, n, after_exit)
                 pass
             except _Break:
                 return
+            if is_for and eng.st.ghost.get('live_iter') and eng.st.ghost.get('live_iter_mutated'):
+                # CPython: changing a dict's size while iterating it raises RuntimeError at the next step
+                eng.prove('unexpected-exception.RuntimeError:dict-changed-size-during-iteration#%s' % anchor,
+                          idx.t + 1 >= n, kind='unexpected-exception')
             fr.ghost[idxname] = V(INT, idx.t + 1)
             for k, inv in enumerate(spec.inv):
                 eng.prove('inv.keep#%s.%d' % (anchor, k + 1), eng.pure_bool(inv, fr), kind='inv.keep')
@@ -307,6 +326,19 @@ def snapshot_present_rule(eng, s, fr, idx_t):
     from .engine import Unsupported
     it = fr.ghost.get('iter_seq')
     snap = eng.st.ghost.get('snapshots', {}).get(it.t.get_id()) if it is not None else None
+    if snap is None and fr.ghost.get('iter_live_dict') is not None and eng.st.ghost.get('live_iter'):
+        # iterating the live table itself: same reasoning, the element is in the table under its own key
+        d0 = fr.ghost['iter_live_dict']
+        from . import heapglue
+        prov = heapglue.table_prov(eng, d0)
+        ref, field = prov
+        cur = heapglue.heap_read(eng, ref, field)
+        k0 = eng.B.dict_key_at(eng, d0, idx_t)
+        elem = z3.Select(T.dict_map(d0), k0)
+        eng.assume(z3.Select(T.dict_has(cur), k0))
+        eng.assume(z3.Select(T.dict_map(cur), k0) == elem)
+        heapglue.note_entry_read(eng, cur, V(cur.ty[1], k0), V(cur.ty[2], elem), z3.BoolVal(True))
+        return
     if snap is None:
         raise Unsupported('snapshot_present: the loop does not iterate a table snapshot')
     for st_ in s.body:
